@@ -12,7 +12,7 @@
    about SHA-256 or JSON. *)
 From Coq Require Import List NArith Bool Permutation.
 Import ListNotations.
-From Oras Require Import Base.Prelude Generated.GC07 Model.GraphMem Model.GraphStore Model.IndexLTS Proofs.GraphMem Proofs.GraphStore Proofs.IndexLTS.
+From Oras Require Import Base.Prelude Generated.GC07 Model.GraphMem Model.GraphStore Model.IndexLTS Model.Links Proofs.GraphMem Proofs.Links Proofs.GraphStore Proofs.IndexLTS.
 
 (* The invariants written in the comments of graph.Memory hold after every history of
    Index / Remove / IndexAll / fresh-graph operations, with content appearing in and
@@ -34,6 +34,19 @@ Theorem C07_exact :
     predecessors_raw g n = map Some (predecessors g n).
 Proof. exact exact_full. Qed.
 Print Assumptions C07_exact.
+
+(* "... whose config, layers, blobs, manifests or subject reference n": with [content] the
+   model of content.Successors on a document ([successors_of], run against the real function
+   on every run), Predecessors(n) is exactly the nodes in memory that reference n as subject,
+   config, layer, listed manifest or blob -- as their media type makes the code read them
+   (a Docker manifest's subject, an index's layers ... are not references). *)
+Theorem C07_links_exact :
+  forall (doc : node -> mdoc) (g : graph),
+    Inv (fun p => successors_of (doc p)) g ->
+    forall n, NoDup (predecessors g n) /\
+              forall p, In p (predecessors g n) <-> In p (g_nodes g) /\ link (doc p) n.
+Proof. exact links_exact. Qed.
+Print Assumptions C07_links_exact.
 
 (* The two together, for the machine that is extracted and run against the Go code:
    after any history every query is exact. *)
@@ -147,6 +160,28 @@ Theorem C07_reload_equiv_without_roots_refuted :
 Proof. exact reload_without_root_refuted. Qed.
 Print Assumptions C07_reload_equiv_without_roots_refuted.
 
+(* ---- file store (content/file.Store.Push = store the bytes, index, restore duplicated
+   names; the first and the last step can fail or refuse, as the environment decides) ----
+   After every history of pushes with any outcomes, Predecessors(n) is exactly the stored
+   nodes referencing n -- for the order "index before restore" as re-read from file.go
+   ([file_index_first] from Generated.GC07.calls_filePush). *)
+Theorem C07_file_history_exact_src :
+  forall (content : node -> list node) (ops : list fop) (n : node),
+    let s := frun file_index_first content ops in
+    NoDup (predecessors (f_graph s) n) /\
+    forall p, In p (predecessors (f_graph s) n) <-> In p (f_blobs s) /\ In n (content p).
+Proof. exact file_history_exact_src. Qed.
+Print Assumptions C07_file_history_exact_src.
+
+(* with the restore step before the index step (the code before the fix) a manifest whose
+   duplicate cannot be restored is stored and never indexed (audit finding F1) *)
+Theorem C07_file_restore_first_refuted :
+  exists content ops n p,
+    let s := frun false content ops in
+    In p (f_blobs s) /\ In n (content p) /\ ~ In p (predecessors (f_graph s) n).
+Proof. exact file_restore_first_refuted. Qed.
+Print Assumptions C07_file_restore_first_refuted.
+
 (* ---- OCI store level (Model/GraphStore.v: blobs on disk, the root list of
    index.json, graph.Memory) ----
    After every history of Push / Tag / Delete (a Delete with AutoGC is a sequence of
@@ -155,10 +190,11 @@ Print Assumptions C07_reload_equiv_without_roots_refuted.
    n -- for the repaired gcIndex.  [isman] marks the five manifest media types; only
    they have successors. *)
 Theorem C07_store_history_exact :
-  forall (content : node -> list node) (isman : node -> bool),
+  forall (content : node -> list node) (isman : node -> bool) (rank : node -> nat),
     (forall p, content p <> [] -> isman p = true) ->
+    (forall p c, In c (content p) -> (rank c < rank p)%nat) ->
     forall fuel ops n,
-      let s := fst (orun true true content isman fuel empty_store ops) in
+      let s := fst (orun true true true content isman fuel empty_store ops) in
       NoDup (predecessors (o_graph s) n) /\
       forall p, In p (predecessors (o_graph s) n) <-> In p (o_blobs s) /\ In n (content p).
 Proof. exact store_history_exact. Qed.
@@ -169,66 +205,123 @@ Print Assumptions C07_store_history_exact.
    statement stops compiling when index.json is written before the digest references of
    the reachable manifests are restored *)
 Theorem C07_store_history_exact_src :
-  forall (content : node -> list node) (isman : node -> bool),
+  forall (content : node -> list node) (isman : node -> bool) (rank : node -> nat),
     (forall p, content p <> [] -> isman p = true) ->
+    (forall p c, In c (content p) -> (rank c < rank p)%nat) ->
     forall fuel ops n,
-      let s := fst (orun true gc_save_after_restore content isman fuel empty_store ops) in
+      let s := fst (orun true gc_save_after_restore delete_reroots content isman fuel empty_store ops) in
       NoDup (predecessors (o_graph s) n) /\
       forall p, In p (predecessors (o_graph s) n) <-> In p (o_blobs s) /\ In n (content p).
 Proof. exact store_history_exact_src. Qed.
 Print Assumptions C07_store_history_exact_src.
 
-(* Store.GC saving index.json BEFORE restoring those references ([orun true false]): push 0,
+(* Store.GC saving index.json BEFORE restoring those references ([orun true false false], i.e. without the re-rooting of dangling manifests in delete, which masks it): push 0,
    2 = manifest{0}, 3 = index{2}; tag 3; GC; reopen; delete 3; reopen: 2 is stored, references
    0, and Predecessors(0) omits it.  Without the reopen between GC and Delete the defect is
    masked ([C07_store_gc_save_early_masked]). *)
 Theorem C07_store_gc_save_early_refuted :
   exists content isman fuel ops n p,
     (forall q, content q <> [] -> isman q = true) /\
-    let r := orun true false content isman fuel empty_store ops in
+    let r := orun true false false content isman fuel empty_store ops in
     snd r = true /\ In p (o_blobs (fst r)) /\ In n (content p) /\
     ~ In p (predecessors (o_graph (fst r)) n).
 Proof. exact store_gc_save_early_refuted. Qed.
 Print Assumptions C07_store_gc_save_early_refuted.
 
 Example C07_store_gc_save_early_masked :
-  let r := orun true false (ctab pf_ct) pf_isman 50 empty_store pf_ops in
+  let r := orun true false false (ctab pf_ct) pf_isman 50 empty_store pf_ops in
   snd r = true /\ predecessors (o_graph (fst r)) 0%N = [2%N].
 Proof. exact store_gc_save_early_masked. Qed.
 
 Example C07_store_history_fixed_example2 :
-  let r := orun true true (ctab pf_ct) pf_isman 50 empty_store pf_ops2 in
+  let r := orun true true true (ctab pf_ct) pf_isman 50 empty_store pf_ops2 in
   snd r = true /\ o_blobs (fst r) = [2; 0]%N /\ predecessors (o_graph (fst r)) 0%N = [2%N].
 Proof. exact store_history_fixed_example2. Qed.
+
+(* [ops] may contain PForeign: the layout's index.json replaced from outside by one that lists
+   only the tagged and top-level manifests (what other tools write), then reopened.  The
+   theorem above covers those histories because Store.delete gives a by-digest entry to every
+   manifest that loses its last predecessor ([reroot = true], re-read from the source as
+   [delete_reroots]).  Without it ([orun true true false]): push 0, 2 = manifest{0},
+   3 = index{2}; tag 3; foreign index listing 3 only + reopen; delete 3; reopen: 2 is stored,
+   references 0, Predecessors(0) omits it (audit finding F2; fixed by repo commit
+   "fix: oci Delete keeps a dangling manifest listed in the index"). *)
+Theorem C07_store_foreign_noreroot_refuted :
+  exists content isman fuel ops n p,
+    (forall q, content q <> [] -> isman q = true) /\
+    let r := orun true true false content isman fuel empty_store ops in
+    snd r = true /\ In p (o_blobs (fst r)) /\ In n (content p) /\
+    ~ In p (predecessors (o_graph (fst r)) n).
+Proof. exact store_foreign_noreroot_refuted. Qed.
+Print Assumptions C07_store_foreign_noreroot_refuted.
+
+Example C07_store_foreign_fixed_example :
+  let r := orun true true true (ctab pf_ct) pf_isman 50 empty_store pf_ops3 in
+  snd r = true /\ o_blobs (fst r) = [2; 0]%N /\ predecessors (o_graph (fst r)) 0%N = [2%N].
+Proof. exact store_foreign_fixed_example. Qed.
+
+(* the hypotheses of the store theorems hold for the example universe *)
+Example C07_store_hyps_example :
+  (forall q, ctab pf_ct q <> [] -> pf_isman q = true) /\
+  (forall p c, In c (ctab pf_ct p) -> (N.to_nat c < N.to_nat p)%nat).
+Proof. exact (conj pf_content_isman pf_rank_dec). Qed.
+
+(* The store theorems take [fst] of [orun]: a GC / reopen that ran out of fuel is a no-op in
+   the model.  That never hides a real step: with fuel above the size of any finite universe
+   closed under [content] that contains the entries of the resolver and of index.json, every
+   step other than a refused PForeign reports success (per step; audit F8). *)
+Theorem C07_store_step_terminates :
+  forall content isman U fuel fixed save_late reroot s o,
+    (forall u, In u U -> forall c, In c (content u) -> In c U) ->
+    (1 + pot content U [] < fuel)%nat ->
+    (forall x, In x (o_tagged s) \/ In x (o_dtagged s) \/ In x (o_dbydigest s) -> In x U) ->
+    match o with PGC kept => forall x, In x kept -> In x U | PForeign _ => False | _ => True end ->
+    snd (ostep fixed save_late reroot content isman fuel s o) = true.
+Proof. exact store_step_terminates. Qed.
+Print Assumptions C07_store_step_terminates.
+
+(* Scope: [ops] are operations that COMPLETE.  An operation aborted by the environment
+   half-way is not covered, and the statement is false there: a Delete whose unlink fails
+   after Untag / graph.Remove / saveIndex (EPERM, open handle on NTFS) leaves the blob stored
+   and un-indexed.  Declared out of scope (assumptions in bin/props.d/C07.py; audit F3). *)
+Theorem C07_store_delete_error_refuted :
+  exists content isman ops n p,
+    (forall q, content q <> [] -> isman q = true) /\
+    let s := delete_unlink_fails content isman
+               (fst (orun true true true content isman 50 empty_store ops)) p in
+    In p (o_blobs s) /\ In n (content p) /\ ~ In p (predecessors (o_graph s) n).
+Proof. exact store_delete_error_refuted. Qed.
+Print Assumptions C07_store_delete_error_refuted.
 
 (* closing the layout and opening it again (directory, fs.FS, tar: the same loadIndex)
    changes neither the stored set nor any Predecessors answer *)
 Theorem C07_store_reopen_same :
-  forall (content : node -> list node) (isman : node -> bool),
+  forall (content : node -> list node) (isman : node -> bool) (rank : node -> nat),
     (forall p, content p <> [] -> isman p = true) ->
+    (forall p c, In c (content p) -> (rank c < rank p)%nat) ->
     forall fuel ops s',
-      let s := fst (orun true true content isman fuel empty_store ops) in
-      ostep true true content isman fuel s PReopen = (s', true) ->
+      let s := fst (orun true true true content isman fuel empty_store ops) in
+      ostep true true true content isman fuel s PReopen = (s', true) ->
       o_blobs s' = o_blobs s /\
       forall n, Permutation (predecessors (o_graph s') n) (predecessors (o_graph s) n).
 Proof. exact store_reopen_same. Qed.
 Print Assumptions C07_store_reopen_same.
 
 (* The same statement is false for gcIndex as it was before the repair
-   ([orun false]): push 0, 2 = manifest{0}, 3 = index{2}; tag 3; GC; delete 3; reopen:
+   ([orun false true false], likewise without the re-rooting in delete): push 0, 2 = manifest{0}, 3 = index{2}; tag 3; GC; delete 3; reopen:
    2 is stored and references 0, Predecessors(0) omits it.  Replayed on the real store:
    corpus/C07/gc-drops-nested-manifest.json. *)
 Theorem C07_store_history_exact_prefix_refuted :
   exists content isman fuel ops n p,
     (forall q, content q <> [] -> isman q = true) /\
-    let r := orun false true content isman fuel empty_store ops in
+    let r := orun false true false content isman fuel empty_store ops in
     snd r = true /\ In p (o_blobs (fst r)) /\ In n (content p) /\
     ~ In p (predecessors (o_graph (fst r)) n).
 Proof. exact store_history_exact_prefix_refuted. Qed.
 Print Assumptions C07_store_history_exact_prefix_refuted.
 
 Example C07_store_history_fixed_example :
-  let r := orun true true (ctab pf_ct) pf_isman 50 empty_store pf_ops in
+  let r := orun true true true (ctab pf_ct) pf_isman 50 empty_store pf_ops in
   snd r = true /\ o_blobs (fst r) = [2; 0]%N /\ predecessors (o_graph (fst r)) 0%N = [2%N].
 Proof. exact store_history_fixed_example. Qed.
 
@@ -328,4 +421,17 @@ Proof.
   - vm_compute. intros p H. repeat (destruct H as [<-|H]; [reflexivity|]). destruct H.
   - vm_compute. intros p H Hne.
     repeat (destruct H as [<-|H]; [first [ now (exfalso; apply Hne) | tauto ]|]). destruct H.
+Qed.
+
+(* ... and the remaining hypothesis of C07_reload_equiv: every fetchable manifest is live *)
+Example C07_example_reload_hyp_storage :
+  forall p, ex_sok p = true -> ctab ex_ct p <> [] -> In p (g_nodes ex_live).
+Proof.
+  intros p _ Hne. vm_compute.
+  destruct (N.eq_dec p 2) as [->|H2]; [tauto|].
+  destruct (N.eq_dec p 3) as [->|H3]; [tauto|].
+  destruct (N.eq_dec p 4) as [->|H4]; [tauto|].
+  exfalso. apply Hne. unfold ctab, getd, ex_ct. simpl.
+  destruct (N.eqb_spec p 2); [congruence|]. destruct (N.eqb_spec p 3); [congruence|].
+  destruct (N.eqb_spec p 4); [congruence|]. reflexivity.
 Qed.
